@@ -108,10 +108,16 @@ Theorem C03_clean_concat : forall X r, good_path r = true ->
 Proof. exact cred_prefix_join. Qed.
 Print Assumptions C03_clean_concat.
 
-(** Path level, caches included (any number of them, as long as no cache sits directly on
-    another): a raw argument is rejected, or it addresses [root ++ r] with [r] canonical. *)
+(** path.Clean is idempotent as far as the reduction below it can tell: a cache directly on a
+    cache changes nothing. *)
+Theorem C03_clean_idempotent : forall s, cred (clean_path s) = cred s.
+Proof. exact cred_clean_path. Qed.
+Print Assumptions C03_clean_idempotent.
+
+(** Path level, caches included (any number of them, anywhere): a raw argument is rejected, or
+    it addresses [root ++ r] with [r] canonical. *)
 Theorem C03_resolve_confined_cache : forall nn c s p,
-  cache_ok c -> bases_ok c -> resolve nn c s = Some p ->
+  bases_ok c -> resolve nn c s = Some p ->
   exists b r, root_of c = Some b /\ red_under c s = Some r /\ good_path r = true /\ p = b ++ r.
 Proof. exact resolve_confined_cache. Qed.
 Print Assumptions C03_resolve_confined_cache.
